@@ -67,5 +67,29 @@ async fn main() {
             let _ = OperationStore::<Operation<()>, Hash>::has_operation(&store, &t.hash).await;
         }
     }
+    // degenerate author keys: small-order points of the curve (e.g. the neutral element) with the signature (R = neutral,
+    // s = 0) satisfy the plain ed25519 verification equation for EVERY message; a strict verification refuses them
+    let small_order: [[u8; 32]; 3] = [
+        { let mut b = [0u8; 32]; b[0] = 1; b },                                            // neutral element
+        [0xec, 0xff, 0xff, 0xff, 0xff, 0xff, 0xff, 0xff, 0xff, 0xff, 0xff, 0xff, 0xff, 0xff, 0xff, 0xff, 0xff, 0xff, 0xff, 0xff, 0xff, 0xff, 0xff, 0xff, 0xff, 0xff, 0xff, 0xff, 0xff, 0xff, 0xff, 0x7f], // order 2
+        [0u8; 32],                                                                           // order 4
+    ];
+    for kb in small_order {
+        let Ok(vk) = p2panda_core::VerifyingKey::from_bytes(&kb) else { continue };
+        let mut sig = [0u8; 64]; sig[0] = 1;
+        for (seq, body) in [(0u32, &b"anything"[..]), (0, &b""[..])] {
+            let b = Body::new(body);
+            let header = p2panda_core::Header::<()> { verifying_key: vk, version: 1, signature: Some(p2panda_core::identity::Signature::from_bytes(&sig)), payload_size: b.size(),
+                payload_hash: if b.size() == 0 { None } else { Some(b.hash()) }, seq_num: seq, backlink: None, extensions: () };
+            let t = Operation { hash: header.hash(), header, body: if b.size() == 0 { None } else { Some(b) } };
+            let store = SqliteStore::temporary().await;
+            let r = ingest_operation(&store, &t, &1u64, &1u64, false).await;
+            n += 1;
+            if r.is_ok() && reported.insert("forged-operation-of-small-order-key-accepted") {
+                rp_core::report(true, "forged-operation-of-small-order-key-accepted", json!({"author_key_bytes": format!("{kb:02x?}"), "signature": "R = neutral element, s = 0", "body": String::from_utf8_lossy(body)}),
+                    json!({"ingest_result": format!("{r:?}")}), &["oplog::ingest_operation.ensures#only_valid_operations_accepted", "oplog::Header::verify.safety", "oplog::validate_header.ensures#ok_iff_header_well_formed_and_authentic"]);
+            }
+        }
+    }
     println!("{}", json!({"summary": true, "evaluations": n, "violating_classes": reported}));
 }
